@@ -105,10 +105,13 @@ class CHECK(Check):
                     out.append((d, 'layout', 'nl', m.text_of(s, numbered=True).replace(' ', '\n')))
                     for i, sp, text in lexemes.deviations(m, s, alts=lexemes.ALT, per_class_first_only=not thorough, magic=False):
                         out.append((d, s[i], sp, text))
-            # two derivation steps away from the minimal sentences
-            for s in f.s0_triples(exclude=pairs):
-                if usable(s):
-                    out.append((d, 'default', None, m.text_of(s, numbered=True)))
+            # two derivation steps away from the minimal sentences; expression leaves as identifiers (0) and as integers (1)
+            seen = set(pairs)
+            for table in (0, 1) + ((2,) if thorough else ()):
+                for s in f.s0_pairs(table=table) + f.s0_triples(table=table):
+                    if s not in seen and usable(s):
+                        seen.add(s)
+                        out.append((d, 'default', None, m.text_of(s, numbered=True)))
             # keyword identifiers: every keyword word back-quoted (and bare) in a few fixed contexts
             for w in kw:
                 for ctx in ('select %s from t', 'select a from %s', 'select a as %s from t', 'select t.%s from t', 'select %s.a from %s',
